@@ -341,6 +341,11 @@ def check_linear(kind, xv, yv, uy, x_unc, ux, u_y_arg):
     M = type_a.merge(A, fit2.a_b[0])
     if M.x != A.x or bad(reporting.sensitivity(M, ys[0]), 2 * da_dy[0]):
         return dict(base, what='merge')
+    # the value of the FIRST argument, also when the second differs from it (within TOL)
+    B2 = fit2.a_b[0] + 5e-14
+    M2 = type_a.merge(A, B2)
+    if B2.x != A.x and (M2.x != A.x or bad(reporting.sensitivity(M2, ys[0]), 2 * da_dy[0])):
+        return dict(base, what='merge: not the value of the first argument', got=M2.x, want=A.x)
     return None
 
 def chi2_profile(alpha, xv, yv, u2x, u2y, cov):
@@ -498,7 +503,7 @@ def search(rng, tier, broken):
         tried += 1
         try:
             if kind == 'wtls':
-                mode = (i // 3) % 5
+                mode = (i // 3) % 6
                 rxy = [round(rng.uniform(-0.6, 0.6), 2) if rng.random() < 0.4 else 0 for _ in xv]
                 if mode == 0: r = check_wtls(xv, yv, ux, uy, rxy)                      # correlations declared on the data
                 elif mode == 1:                                                         # weights as arguments, all different
@@ -508,6 +513,8 @@ def search(rng, tier, broken):
                 elif mode == 3:                                                         # near-vertical, start with the wrong slope sign
                     xv, yv, ux, uy = steep_dataset(rng)
                     r = check_wtls(xv, yv, ux, uy, [0] * len(xv), a_b=(0.0, round(rng.uniform(3, 6), 2)))
+                elif mode == 4:                                                         # any initial estimate, however poor
+                    r = check_wtls(xv, yv, ux, uy, rxy, a_b=(round(rng.uniform(-5, 5), 2), round(rng.choice([-1, 1]) * 10 ** rng.uniform(-2, 2), 3)))
                 else: r = check_labels(xv, yv, uy)
             else:
                 x_unc = rng.random() < 0.4
@@ -584,3 +591,18 @@ def kf_C14_wtls_cov():
     inconsistent = abs(num - ana) > 1e-3 * abs(num)
     return wrong_value and inconsistent, {'a_b': [fit.a_b[0].x, fit.a_b[1].x], 'true_minimum': [a, b],
                                           'numerical_dChiSq': num, 'dChiSq_dalpha': ana}
+
+def kf_C14_wtls_bracket_end():
+    """a poor initial estimate: the returned angle is an end alpha0 -+ pi/2 of the search interval, not a minimum"""
+    from GTC import core, type_b
+    new_context(13)
+    x = [core.ureal(v, 0.01) for v in (1.0198, 0.9552, 0.8899, 0.8249)]
+    y = [core.ureal(v, 0.1) for v in (0.0, 2.0, 4.0, 6.0)]
+    fit = type_b.line_fit_wtls(x, y, a_b=(0.0, 3.08))
+    b = fit.a_b[1].x
+    alpha0 = math.atan(3.08)
+    d = min(abs(math.atan(b) - (alpha0 - math.pi / 2)), abs(math.atan(b) - (alpha0 + math.pi / 2)),
+            abs(math.atan(b) + math.pi - (alpha0 + math.pi / 2)))
+    ref = type_b.line_fit_wtls(x, y)
+    return d < 1e-6 and abs(b - ref.a_b[1].x) > 1.0, {'a_b': [fit.a_b[0].x, b], 'ssr': fit.ssr,
+                                                       'from_default_start': [ref.a_b[0].x, ref.a_b[1].x], 'ssr_default': ref.ssr}
